@@ -193,10 +193,12 @@ func (fd *feeder) checkPanics(sd, mut string, b []byte) bool {
 // ---------------------------------------------------------------- listeners
 
 type listener struct {
-	name     string
-	start    func() *vnet.UDPConn
-	sock     *vnet.UDPConn
-	seeds    []seed
+	name  string
+	start func() *vnet.UDPConn
+	sock  *vnet.UDPConn
+	seeds []seed
+	// exact inputs are sent as they are (no structure-blind variants)
+	exact    []seed
 	sentinel func() []byte
 	// sentinelOK judges what the listener wrote for the sentinel.
 	sentinelOK func(out []*vnet.Datagram) bool
@@ -211,6 +213,34 @@ func (fd *feeder) runListener(l *listener) {
 		l.sock.Deliver(&vnet.Datagram{From: l.from, To: l.sock.Local(), Data: b, RxTime: w.Clock.Peek()})
 		w.Settle()
 		return w.Net.SentSince(before)
+	}
+	for _, sd := range l.exact {
+		if fd.over() {
+			break
+		}
+		fd.n++
+		fd.r.Journal(fmt.Sprintf("%s %s exact", l.name, sd.name))
+		fd.r.Evals++
+		fd.r.Distinct++
+		reads := l.sock.Reads.Load()
+		send(sd.b)
+		if fd.checkPanics(sd.name, "exact", sd.b) {
+			l.sock = l.start()
+			continue
+		}
+		if l.sock.Reads.Load() != reads+1 || !l.sock.Reading.Load() {
+			fd.fail(sd.name, "exact", sd.b, "listener-not-back-in-read", "the receive loop did not return to its read")
+			l.sock = l.start()
+			continue
+		}
+		out := send(l.sentinel())
+		if fd.checkPanics(sd.name, "exact+sentinel", sd.b) {
+			l.sock = l.start()
+			continue
+		}
+		if !l.sentinelOK(out) {
+			fd.fail(sd.name, "exact", sd.b, "sentinel-not-answered", fmt.Sprintf("after the crafted datagram the well-formed request got %d datagrams", len(out)))
+		}
 	}
 	for _, sd := range l.seeds {
 		variants(sd.b, fd.r.Thorough(), func(mut string, b []byte) {
@@ -281,6 +311,59 @@ func (fd *feeder) runListener(l *listener) {
 		send(sd.b)
 		fd.checkPanics(sd.name, "none", sd.b)
 	}
+}
+
+// sealedRequests: NTS requests whose authenticator verifies under the session's
+// client-to-server key (any peer can obtain a cookie and that key from the key
+// exchange) but whose other fields are not what the project's encoder produces:
+// unique identifiers of every length class, 0..2 cookies, truncated / padded
+// cookies, placeholder counts and body lengths, unknown fields, reordered
+// fields, encrypted fields in the authenticator.
+func sealedRequests(sess *kit.Session, hdr []byte) []seed {
+	var ss []seed
+	ck := sess.Cookie()
+	uid := func(n int) kit.Ext { return kit.Ext{Type: 0x0104, Body: bytes.Repeat([]byte{0x3d}, n)} }
+	cookie := func(b []byte) kit.Ext { return kit.Ext{Type: 0x0204, Body: b} }
+	ph := func(n int) kit.Ext { return kit.Ext{Type: 0x0304, Body: make([]byte, n)} }
+	add := func(name string, plain []byte, fs ...kit.Ext) {
+		b := kit.Seal(hdr, fs, plain, sess.C2S, byte(len(ss)))
+		if len(b) <= 2040 {
+			ss = append(ss, seed{name: "sealed:" + name, b: b})
+		}
+	}
+	for _, n := range []int{0, 1, 4, 16, 28, 31, 32, 33, 36, 64, 128, 300, 500, 700, 800, 900, 1000, 1200, 1600, 1800} {
+		add(fmt.Sprintf("uid=%d", n), nil, uid(n), cookie(ck))
+		add(fmt.Sprintf("uid=%d,placeholders=7", n), nil, append([]kit.Ext{uid(n), cookie(ck)}, repeatExt(ph(len(ck)), 7)...)...)
+	}
+	for _, np := range []int{1, 2, 6, 7, 8, 9, 12, 14} {
+		for _, pl := range []int{0, 4, len(ck), len(ck) + 4, 300} {
+			add(fmt.Sprintf("placeholders=%dx%d", np, pl), nil, append([]kit.Ext{uid(32), cookie(ck)}, repeatExt(ph(pl), np)...)...)
+		}
+	}
+	add("no-cookie", nil, uid(32))
+	add("two-cookies", nil, uid(32), cookie(ck), cookie(sess.Cookie()))
+	add("cookie-first", nil, cookie(ck), uid(32))
+	add("no-uid", nil, cookie(ck))
+	add("two-uids", nil, uid(32), uid(32), cookie(ck))
+	add("cookie-truncated", nil, uid(32), cookie(ck[:50]))
+	add("cookie-padded", nil, uid(32), cookie(append(bytes.Clone(ck), make([]byte, 100)...)))
+	add("cookie-huge", nil, uid(32), cookie(append(bytes.Clone(ck), make([]byte, 900)...)))
+	add("cookie-empty", nil, uid(32), cookie(nil))
+	add("unknown-field", nil, uid(32), cookie(ck), kit.Ext{Type: 0x4242, Body: make([]byte, 40)})
+	add("unknown-field-large", nil, uid(32), cookie(ck), kit.Ext{Type: 0x4242, Body: make([]byte, 700)})
+	add("unknown-critical-first", nil, kit.Ext{Type: 0x8242, Body: make([]byte, 8)}, uid(32), cookie(ck))
+	add("encrypted-field", kit.EncodeExt(kit.Ext{Type: 0x0204, Body: make([]byte, 100)}), uid(32), cookie(ck))
+	add("encrypted-garbage", []byte{1, 2, 3, 4, 5}, uid(32), cookie(ck))
+	add("only-authenticator", nil)
+	return ss
+}
+
+func repeatExt(e kit.Ext, n int) []kit.Ext {
+	out := make([]kit.Ext, n)
+	for i := range out {
+		out[i] = e
+	}
+	return out
 }
 
 func scionSeeds(w *world.World, sess *kit.Session, d *kit.FakeDaemon, dstPort uint16) []seed {
@@ -386,6 +469,7 @@ func listeners(fd *feeder) []*listener {
 			return c
 		},
 		seeds:      []seed{{name: "ntp", b: hdr}, {name: "nts-level8", b: nts8}, {name: "nts-level3", b: nts3}},
+		exact:      sealedRequests(sess, hdr),
 		sentinel:   func() []byte { return kit.ClientHeader(w.Clock.Peek()) },
 		sentinelOK: func(out []*vnet.Datagram) bool { return len(out) == 1 },
 	})
@@ -411,6 +495,20 @@ func listeners(fd *feeder) []*listener {
 				return c
 			},
 			seeds: scionSeeds(w, map[bool]*kit.Session{true: sess, false: nil}[withAuth], d, seedPort),
+			exact: func() []seed {
+				if !withAuth {
+					return nil
+				}
+				var ss []seed
+				for _, sd := range sealedRequests(sess, hdr) {
+					if len(sd.b) > 1300 {
+						continue
+					}
+					pk := &kit.Pkt{SrcIA: kit.CliIA, DstIA: kit.SrvIA, SrcHost: kit.CliHost, DstHost: kit.SrvHost, Path: kit.PathSpec{Kind: "empty"}, L4: "udp", SrcPort: 40123, DstPort: seedPort, Payload: sd.b}
+					ss = append(ss, seed{name: sd.name, b: pk.Bytes()})
+				}
+				return ss
+			}(),
 			sentinel: func() []byte {
 				return (&kit.Pkt{SrcIA: kit.CliIA, DstIA: kit.SrvIA, SrcHost: kit.CliHost, DstHost: kit.SrvHost, Path: kit.PathSpec{Kind: "empty"}, L4: "udp", SrcPort: 40123, DstPort: sentinelPort, Payload: kit.ClientHeader(w.Clock.Peek())}).Bytes()
 			},
@@ -565,6 +663,8 @@ type clientTarget struct {
 	genuine func(d *vnet.Datagram) (b []byte, from netip.AddrPort)
 	// extra seeds derived from the genuine response
 	extra func(d *vnet.Datagram, genuine []byte) []seed
+	// exact responses built for the outstanding request and sent as they are
+	exact func(d *vnet.Datagram, genuine []byte) []seed
 }
 
 func (fd *feeder) runClient(ct *clientTarget) {
@@ -637,6 +737,32 @@ func (fd *feeder) runClient(ct *clientTarget) {
 		}
 		return g, from
 	})
+	if ct.exact != nil {
+		var names []string
+		one("probe", "genuine-for-exact", func(d *vnet.Datagram) ([]byte, netip.AddrPort) {
+			g, from := ct.genuine(d)
+			for _, e := range ct.exact(d, g) {
+				names = append(names, e.name)
+			}
+			return g, from
+		})
+		for _, name := range names {
+			one(name, "exact", func(d *vnet.Datagram) ([]byte, netip.AddrPort) {
+				g, from := ct.genuine(d)
+				for _, e := range ct.exact(d, g) {
+					if e.name == name {
+						return e.b, from
+					}
+				}
+				return g, from
+			})
+			// a few undisturbed calls in between: what an accepted odd response left
+			// in the client's state is used by later requests
+			for k := 0; k < 2; k++ {
+				one(name, fmt.Sprintf("exact, then genuine %d", k), func(d *vnet.Datagram) ([]byte, netip.AddrPort) { return ct.genuine(d) })
+			}
+		}
+	}
 	for _, sd := range seeds {
 		// seeds are templates: the genuine response is rebuilt for every request and the
 		// mutation re-applied by name (timestamps differ from call to call)
@@ -775,6 +901,42 @@ func clientTargets(fd *feeder) []*clientTarget {
 				return ntpReply(d.Data, w.Clock.Peek()), srv
 			}
 			return out[0].Data, srv
+		},
+		exact: func(d *vnet.Datagram, genuine []byte) []seed {
+			// responses that verify under the server-to-client key and echo the request's
+			// unique identifier, with cookies the project's server would never issue
+			var req nts.Packet
+			if nts.DecodePacket(&req, d.Data) != nil || len(genuine) < 48 {
+				return nil
+			}
+			key := ntsc.Auth.NTSKEFetcher.VerifData().S2cKey
+			uid := kit.Ext{Type: 0x0104, Body: req.UniqueID.ID}
+			var ss []seed
+			add := func(name string, plain []byte, fs ...kit.Ext) {
+				if b := kit.Seal(genuine[:48], fs, plain, key, byte(len(ss))); len(b) <= 2040 {
+					ss = append(ss, seed{name: "sealed:" + name, b: b})
+				}
+			}
+			cookies := func(n, l int) []byte {
+				var p []byte
+				for i := 0; i < n; i++ {
+					p = append(p, kit.EncodeExt(kit.Ext{Type: 0x0204, Body: bytes.Repeat([]byte{byte(0x50 + i)}, l)})...)
+				}
+				return p
+			}
+			for _, l := range []int{0, 1, 3, 4, 100, 104, 124, 300, 600, 860, 900, 1000, 1500} {
+				for _, n := range []int{1, 2, 8} {
+					add(fmt.Sprintf("cookies=%dx%d", n, l), cookies(n, l), uid)
+				}
+			}
+			add("cookies=20x100", cookies(20, 100), uid)
+			add("no-cookie", nil, uid)
+			add("plaintext-garbage", []byte{1, 2, 3}, uid)
+			add("plaintext-unknown-field", kit.EncodeExt(kit.Ext{Type: 0x4242, Body: make([]byte, 64)}), uid)
+			add("cookie-outside-authenticator", cookies(1, 100), uid, kit.Ext{Type: 0x0204, Body: make([]byte, 100)})
+			add("two-uids", cookies(1, 100), uid, uid)
+			add("uid-after-unknown", cookies(1, 100), kit.Ext{Type: 0x4242, Body: make([]byte, 8)}, uid)
+			return ss
 		},
 	})
 	// --- SCION clients
@@ -1033,6 +1195,6 @@ func TestCheck(t *testing.T) {
 		}
 		r.Sample(input{Target: "scion-service-port", Seed: "authopt-len=27", Mut: "none"})
 		r.Sample(input{Target: "ip-listener", Seed: "nts-level3", Mut: "u16[84]=0x0"})
-		r.Extra["rule"] = "targets: IP listener, SCION listener as service port / end-host port / dispatcher, CSPTP listener on both ports, NTS-KE handler behind a real TLS session, IP client (plain, NTS), SCION client (plain, SPAO), CSPTP client, and decoders called directly. Inputs: every valid message (NTP, NTS at two pool levels, SCION with empty/SCION/one-hop/incomplete one-hop paths, IPv6, SPAO, hop-by-hop, SCMP, authenticator option with data length 0..40, timestamp option with 35 control-message bodies, unknown options; CSPTP Sync / Follow Up) x {every truncation, every truncation with each / all length-like 16-bit fields rewritten to announce the truncated length (alone, and right after the full datagram with the same fields, so that a reused receive buffer holds matching stale bytes), every byte x 7 values, every (quick: even) 16-bit position x 10 values}; NTS-KE record sequences of <=2 (3) records over 74 records, closed or kept open; extension-field chains of <=2 (3) fields x 10 tail lengths (0..40 bytes after the last field); cookie TLV and nonce/ciphertext length grammars. After every datagram to a listener a well-formed sentinel must be handled."
+		r.Extra["rule"] = "targets: IP listener, SCION listener as service port / end-host port / dispatcher, CSPTP listener on both ports, NTS-KE handler behind a real TLS session, IP client (plain, NTS), SCION client (plain, SPAO), CSPTP client, and decoders called directly. Inputs: every valid message (NTP, NTS at two pool levels, SCION with empty/SCION/one-hop/incomplete one-hop paths, IPv6, SPAO, hop-by-hop, SCMP, authenticator option with data length 0..40, timestamp option with 35 control-message bodies, unknown options; CSPTP Sync / Follow Up) x {every truncation, every truncation with each / all length-like 16-bit fields rewritten to announce the truncated length (alone, and right after the full datagram with the same fields, so that a reused receive buffer holds matching stale bytes), every byte x 7 values, every (quick: even) 16-bit position x 10 values}; NTS-KE record sequences of <=2 (3) records over 74 records, closed or kept open; extension-field chains of <=2 (3) fields x 10 tail lengths (0..40 bytes after the last field); cookie TLV and nonce/ciphertext length grammars; about 90 NTS requests that verify under the session key but carry unique identifiers of 0..1800 bytes, 0..2 cookies, truncated / padded / huge cookies, 1..14 placeholders of 5 body lengths, unknown, reordered and encrypted fields (IP and SCION listeners), and about 45 NTS responses that verify under the server-to-client key and echo the request's identifier but deliver 1..20 cookies of 0..1500 bytes, garbage or unknown encrypted fields (NTS client; each followed by undisturbed calls that use what was stored). After every datagram to a listener a well-formed sentinel must be handled."
 	})
 }
